@@ -69,16 +69,20 @@ theorem sleepy_apply (s : State) (a : Act) (hf : Fresh s) (hk : Sleepy s) (h1 : 
       subst hh
       simp only [lockSection]
       refine ⟨hk.nd, ?_, ?_, ?_⟩
-      · intro h; split at h <;> simp at h
+      · intro h; split at h
+        · simp at h
+        · split at h <;> simp at h
       · intro hw _
         cases hr : s.ring (posOf s.cap (s.height + 1)) with
-        | some b => rw [hr] at hw; simp at hw
+        | some b => rw [hr] at hw; simp only at hw; split at hw <;> simp at hw
         | none =>
           simp only
           cases hc : (cleanup s.cap (s.height - s.lastHeight) s.lastHeight s.ring s.len).1 (posOf s.cap (s.height + 1)) with
           | none => rfl
           | some x => rw [cleanup_sub _ _ _ _ _ _ _ hc] at hr; cases hr
-      · split <;> simp
+      · split
+        · simp
+        · split <;> simp
     | holding b pos =>
       simp only [addItem]
       exact ⟨hk.nd, fun h => by simp at h, fun h => by simp at h, by simp⟩
